@@ -16,7 +16,7 @@ import (
 
 func c09Gen(rt *rapid.T) wProg {
 	p := wProg{}
-	p.Cfg = wConfig{Users: 4}
+	p.Cfg = wConfig{Users: 4, Root: gPct(rt, 30)}
 	// user 1 has two sessions: the second one mostly sits on 'me' only and observes {pres}
 	p.Sess = append([]int(nil), gPick(rt, [][]int{{0, 1, 1, 2}, {0, 1, 1, 2, 3}, {0, 0, 1, 1, 2}}, "layout")...)
 	isChan := gPct(rt, 35)
@@ -71,6 +71,24 @@ func c09Gen(rt *rapid.T) wProg {
 	for i := 0; i < n; i++ {
 		s := gInt(rt, 0, len(p.Sess)-1, "s")
 		switch x := gInt(rt, 0, 99, "opk"); {
+		case x < 3:
+			// a writer who cannot read publishes, is given R later and sends a read note
+			if p.Sess[s] >= 1 {
+				p.Ops = append(p.Ops, wOp{K: "sub", S: s, T: "g0", A: "JWP"}, wOp{K: "set", S: s, T: "g0", A: "mode", B: "JWP"}, wOp{K: "pub", S: s, T: "g0"},
+					wOp{K: "get", S: s, T: "g0", A: "desc"}, wOp{K: "set", S: s, T: "g0", A: "mode", B: "JRWP"}, wOp{K: "note", S: s, T: "g0", A: gPick(rt, []string{"read", "recv"}, "w3"), N: gInt(rt, 1, 3, "seq3")})
+			}
+		case x < 6:
+			// the root session leaves and attaches again on behalf of user 1, who then types in a session of his own
+			if p.Cfg.Root {
+				p.Ops = append(p.Ops, wOp{K: "leave", S: 0, T: "g0"}, wOp{K: "sub", S: 0, T: "g0", Obo: 2})
+				for k := range p.Sess {
+					if p.Sess[k] == 1 {
+						p.Ops = append(p.Ops, wOp{K: "sub", S: k, T: "g0"}, wOp{K: "note", S: k, T: "g0", A: "kp"}, wOp{K: "note", S: k, T: "g0", A: "read", N: 1})
+						break
+					}
+				}
+				p.Ops = append(p.Ops, wOp{K: "note", S: 0, T: "g0", A: "kp", Obo: 2})
+			}
 		case x < 12:
 			// a reader working through the messages: receipts in ascending order, then a stale one
 			t := topicFor(s)
